@@ -26,6 +26,11 @@ INT_MIN = -9223372036854775808
 # leaf pool of the property's quantifier
 LEAVES = [("i", 0), ("i", 1), ("i", -1), ("i", 2), ("i", 7), ("i", INT_MAX), ("i", INT_MIN),
           ("f", 5, -1), ("f", 2, 0), ("f", 7, 0), ("s", "3"), ("s", "x"), ("s", ""), ("m", b"3"), ("c", "a"), ("n",)]
+# representation boundary: integers up to +-(2^61 - 1) are encoded in the value pointer ("quick ints",
+# HAWK_QUICKINT_MAX / HAWK_INT_TO_VTR), larger ones are boxed; 2^60 reaches the boundary by doubling
+Q61 = 2 ** 61
+BOUNDARY = [("i", v) for v in (Q61 - 2, Q61 - 1, Q61, Q61 + 1, -(Q61 - 2), -(Q61 - 1), -Q61, -(Q61 + 1), 2 ** 60, -(2 ** 60))]
+STEPS = [("i", 1), ("i", -1), ("i", 2), ("i", -2), ("i", 0), ("f", 5, -1), ("s", "3")]
 SMALL_LEAVES = [("i", 0), ("i", -1), ("i", 7), ("i", INT_MIN), ("f", 5, -1), ("f", 7, 0), ("s", "3"), ("n",)]
 EXP_LEAVES = LEAVES      # pow_int_by_uint / pow_flt_by_uint loop at most 64 times: every exponent is affordable
 
@@ -557,6 +562,38 @@ def gen_depth1():
         for a in LEAVES:
             out.append(("PRE", op, L(a)))
             out.append(("PST", op, L(a)))
+    out += gen_boundary()
+    return out
+
+
+def gen_boundary():
+    """every operator with an operand on the quick-int / boxed-int boundary and a one-step partner, so that
+    results cross the boundary in both directions; every assignment and inc/dec form on a boundary variable"""
+    out = []
+    for op in BINOPS:
+        for b in BOUNDARY:
+            for st in STEPS:
+                out.append(("B", op, L(b), L(st)))
+                out.append(("B", op, L(st), L(b)))
+    for op in ("plus", "minus", "mul"):
+        for a in BOUNDARY:
+            for b in BOUNDARY:
+                out.append(("B", op, L(a), L(b)))
+    for op in UNROPS:
+        for b in BOUNDARY:
+            out.append(("U", op, L(b)))
+    for op in ASSOPS:
+        for b in BOUNDARY:
+            for st in STEPS:
+                out.append(("A", op, L(b), L(st)))
+                out.append(("A", op, L(st), L(b)))
+    for op in INCOPS:
+        for b in BOUNDARY:
+            out.append(("PRE", op, L(b)))
+            out.append(("PST", op, L(b)))
+            # the stepped value is used again: x++ + x, (++x) - 1
+            out.append(("B", "plus", ("PST", op, L(b)), ("V", 0)))
+            out.append(("B", "minus", ("PRE", op, L(b)), L(("i", 1))))
     return out
 
 
@@ -604,7 +641,12 @@ def pair_cases():
         for a in LEAVES:
             for b in rights:
                 out.append(("assop", ("A", op, L(a), L(b)), ("A", "none", L(a), ("B", op, ("V", 0), L(b)))))
-    for a in LEAVES:
+    for op in ASSOPS[1:]:
+        for a in BOUNDARY:
+            for b in STEPS:
+                out.append(("assop", ("A", op, L(a), L(b)), ("A", "none", L(a), ("B", op, ("V", 0), L(b)))))
+                out.append(("assop", ("A", op, L(b), L(a)), ("A", "none", L(b), ("B", op, ("V", 0), L(a)))))
+    for a in LEAVES + BOUNDARY:
         out.append(("incpre", ("PRE", "plus", L(a)), ("A", "plus", L(a), L(("i", 1)))))
         out.append(("incpre", ("PRE", "minus", L(a)), ("A", "plus", L(a), L(("i", -1)))))
         out.append(("incpst", ("PST", "plus", L(a)), ("A", "plus", L(a), L(("i", 1)))))
@@ -625,6 +667,8 @@ def gen_random(rng, depth):
 
     def new_leaf(pool=LEAVES):
         nslots[0] += 1
+        if pool is LEAVES and rng.random() < 0.12:
+            return L(rng.choice(BOUNDARY))
         return L(rng.choice(pool))
 
     def target():
@@ -1022,6 +1066,7 @@ def run(ctx):
             samples.append("%s => lit: %s ; ref: %s" % (render(trees[c], sp, lambda i: "x%d" % i, lambda i: True), hres.get((c, "lit")), hres.get((c, "ref"))))
     return C.finish(ctx, [proof], len(hres), len(nontriv),
                     "cases = corpus + every one-operator tree over the 16-leaf pool (25 binary, 4 unary, ternary, 14 assignment, 4 inc/dec operators) + "
+                    "every operator / assignment / inc-dec form on the quick-int|boxed-int boundary (+-(2^61-2 .. 2^61+1), +-2^60) with one-step partners + "
                     "compound/expanded and inc/add-assign pairs + two-operator trees with a foldable inner operator over an 8-leaf pool (third operand: 4 leaves) "
                     "(all of them in the thorough tier, a seeded sample in quick) + seeded random trees of depth <= 4; each tree run as 9 variant programs "
                     "(literal/folded, named, @global, @local, parameter, by-reference parameter, map[str], map[int], hawk::array); oracle: identical "
